@@ -187,9 +187,12 @@ const replayTestSrc = `package libinjection
 import (
 	"fmt"
 	"os"
+	"strings"
 	"testing"
 	"time"
 )
+
+var _ = strings.Index
 
 func zzRun(name string, f func()) (res string) {
 	done := make(chan string, 1)
@@ -209,18 +212,35 @@ func zzRun(name string, f func()) (res string) {
 		return "HANG"
 	}
 }
-
+%s
 func TestZZVerifReplay(t *testing.T) {
 	input := string([]byte{%s})
+	prop := %q
 	bad := false
-	report := func(what, r string) {
-		fmt.Printf("REPLAY %%s input=%%q -> %%s\n", what, input, r)
-		if r != "ok" {
+	report := func(what, in, r string) {
+		if r != "ok" && r != "" {
+			fmt.Printf("REPLAY %%s input=%%q hex=%%x -> %%s\n", what, in, in, r)
 			bad = true
 		}
 	}
-	report("IsSQLi", zzRun("IsSQLi", func() { IsSQLi(input) }))
-	report("IsXSS", zzRun("IsXSS", func() { IsXSS(input) }))
+	cands := zzNeighbours(input, %q)
+	for i, in := range cands {
+		in := in
+		report("IsSQLi", in, zzRun("IsSQLi", func() { IsSQLi(in) }))
+		report("IsXSS", in, zzRun("IsXSS", func() { IsXSS(in) }))
+		if o := zzOracles[prop]; o != nil {
+			var msg string
+			r := zzRun("oracle", func() { msg = o(in) })
+			if r != "ok" {
+				msg = r
+			}
+			report("oracle "+prop, in, msg)
+		}
+		if bad {
+			fmt.Printf("REPLAY-CANDIDATE %%d of %%d (0 = the solver's own input)\n", i, len(cands))
+			break
+		}
+	}
 %s
 	if bad {
 		fmt.Println("REPLAY-RESULT reproduced")
@@ -273,13 +293,28 @@ func (pr *Program) replayAPI(prop string, o *Obl, input []byte) (bool, string) {
 `, o.ctx.topName, o.ctx.topName)
 		}
 	}
-	src := fmt.Sprintf(replayTestSrc, strings.Join(bs, ", "), extra)
+	alpha := map[string]string{
+		"C15": "oncliks ja:'\"`>/ &#;",
+		"C17": "<>%-!]?'\"`/ \x00[",
+		"C02": "<>%-!]?'\"`/ \x00[",
+		"C18": "'\"\\`",
+		"C19": "&#xX;0aF",
+		"C16": "'\"-#/*$@. 1e",
+		"C01": "'\"-#/*$@. 1e\\`",
+	}[prop]
+	extra = strings.ReplaceAll(extra, "report(fmt.Sprintf(", "report2(fmt.Sprintf(")
+	extra = "	report2 := func(what, r string) { report(what, input, r) }\n	_ = report2\n" + extra
+	src := fmt.Sprintf(replayTestSrc, oracleSrc, strings.Join(bs, ", "), prop, alpha, extra)
 	out, _ := runOverlayTest(pr.RepoDir, map[string]string{"zz_verif_replay_test.go": src}, "^TestZZVerifReplay$", nil, 60)
 	var keep []string
 	for _, l := range strings.Split(out, "\n") {
 		if strings.HasPrefix(l, "REPLAY") && !strings.HasSuffix(l, "-> ok") {
 			keep = append(keep, l)
 		}
+	}
+	if !strings.Contains(out, "REPLAY-RESULT") {
+		// the harness did not run (e.g. it does not compile against the changed tree)
+		return false, "replay harness did not run: " + clip(out, 1500)
 	}
 	return strings.Contains(out, "REPLAY-RESULT reproduced"), clip(strings.Join(keep, "\n"), 3000)
 }
